@@ -38,7 +38,7 @@ THEOREMS = [
     'Pyiga.Props.C07.outer_nurbs_model', 'Pyiga.Props.C07.tensor_nurbs_law', 'Pyiga.Props.C07.tensor_nurbs_model',
     'Pyiga.Props.C07.composed_jet', 'Pyiga.Props.C07.composed_jacobian', 'Pyiga.Props.C07.composed_value_route',
     'Pyiga.Props.C07.as_vector_nurbs_model', 'Pyiga.Props.C07.getitem_nurbs_model', 'Pyiga.Props.C07.apply_matrix_nurbs_model',
-    'Pyiga.Props.C07.line_segment_law', 'Pyiga.Props.C07.identity_axis', 'Pyiga.Props.C07.unit_cube_model',
+    'Pyiga.Props.C07.line_segment_law', 'Pyiga.Props.C07.identity_axis', 'Pyiga.Props.C07.unit_cube_model', 'Pyiga.Props.C07.identity_model',
     'Pyiga.Props.C07.cylinderize_model', 'Pyiga.Props.C07.quarter_annulus_polar', 'Pyiga.Props.C07.disk_sides', 'Pyiga.Props.C07.disk_scale_radius',
     'Pyiga.Props.C07.copy_boundary_pinned_lose_scalar', 'Pyiga.Props.C07.boundary_pinned_curve_asserts',
 ]
@@ -770,6 +770,15 @@ def run(ctx):
             inner = g1.boundary(bd)
             gb = tuple(np.array(rand_coord(rng, inner.kvs[i], int(rng.integers(1, 3)))) for i in range(s1 - 1))
             comp_requests(cb, inner, gb, 'comp-bd')
+            # generic boundary restriction of the composition: _BoundaryFunction(comp, bd).grid_eval evaluates comp on the
+            # grid with the fixed coordinate inserted at `axis` (zyx) and squeezes that axis
+            bf = geometry._BoundaryFunction(comp, bd)
+            full = list(gb); full.insert(bd[0], np.array([float(g1.support[bd[0]][bd[1]])]))
+            XYb = np.asarray(g1.grid_eval(tuple(full)), dtype=float)
+            Pb = [XYb[..., e].ravel() for e in range(XYb.shape[-1])]
+            if all(0.0 <= p.min() and p.max() <= 1.0 for p in Pb):
+                add('compgeval %s %s %s' % (fmt_func(g2), info_table(g2.kvs, Pb, 0), plist(tuple(len(a) for a in gb))),
+                    (lambda bf=bf, gb=gb: bf.grid_eval(gb)), ('compgeval', g2, g1, tuple(full)))
     # ---- more constructors: unit_cube / unit_square / identity / cylinderize / disk
     for dim in (1, 2, 3):
         for iv in ((1, 2, 3) if dim < 3 else (1, 2)):
@@ -1428,6 +1437,21 @@ def oracle_checks(ctx, funcs):
     count += 1
     if uf(0.25, 0.5) != poly(0.25, 0.5) or uf.pointwise_eval((np.array([0.25]), np.array([0.5])))[0] != poly(0.25, 0.5):
         report('geo-oracle:userfunction', 'UserFunction __call__/pointwise_eval', {})
+    # _BoundaryFunction of a user function: f with the coordinate of `axis` fixed at the end of the support
+    ufb = geometry.UserFunction(lambda x, y, z: (poly(x, y, z), x - z), [(0.0, 1.0), (0.5, 2.0), (-1.0, 1.0)], jac=None)
+    for bd, fix in ((('left'), ('x', -1.0)), (('top'), ('y', 2.0)), ((0, 0), ('z', 0.0)), ((2, 1), ('x', 1.0))):
+        bfu = geometry._BoundaryFunction(ufb, bd)
+        a, b2 = 0.25, 0.75
+        args = {'x': None, 'y': None, 'z': None}
+        free = [k for k in ('x', 'y', 'z') if k != fix[0]]
+        args[fix[0]] = fix[1]; args[free[0]] = a; args[free[1]] = b2
+        want = (poly(args['x'], args['y'], args['z']), args['x'] - args['z'])
+        got = bfu(a, b2)
+        ge = bfu.grid_eval((np.array([b2]), np.array([a])))
+        count += 1
+        if tuple(np.asarray(got, dtype=float).ravel()) != want or tuple(np.asarray(ge, dtype=float).ravel()) != want:
+            report('geo-oracle:boundary-function-user', '_BoundaryFunction(UserFunction, %r)(%r, %r) = %s / grid_eval %s, expected f with %s = %r: %s'
+                   % (bd, a, b2, np.asarray(got).tolist(), np.asarray(ge).tolist(), fix[0], fix[1], list(want)), {'bdspec': bd})
     # ComposedFunction: values and chain rule against the exact composition
     for _ in range(max(4, nor // 4)):
         g1 = rand_func(rng, int(rng.integers(1, 3)), 'bsp', (2,))
